@@ -3,6 +3,7 @@ package agwpe
 import (
 	"bytes"
 )
+
 // C13 K1 + K2: frame decode under every split of the byte stream into two TCP
 // segments (including mid-header and mid-data); header layout.
 func H_c13_frame_decode() {
@@ -31,4 +32,3 @@ func H_c13_frame_decode() {
 type recConn struct {
 	bytes.Buffer
 }
-
